@@ -134,7 +134,20 @@ def run_case(spec):
   r, g = util.rngs(PROP, spec['seed'], spec['idx'])
   G = r.randrange(2, 6)
   allow = ('ratio', 'volume', 'share', 'budget', 'ngeos') if r.random() < 0.7 else None
-  case = sl.make_case(r, g, G, n_dates=r.randrange(10, 40), allow=allow, elig_extra='none')
+  ties = spec['idx'] % 4 == 3 and G >= 3
+  case = sl.make_case(r, g, G, n_dates=r.randrange(10, 40), allow=allow, elig_extra='none',
+                      cls='duplicates' if ties else None, elig_mode='none' if ties else None)
+  if ties:
+    # twin geos give designs with bit-identical scores: their order must be the same at every retrieval
+    tw = [f for f in case['panel']['features'] if f.startswith('twins:')]
+    if tw:
+      a, b = (int(v) for v in tw[0][6:].split(','))
+      ids_ = [str(i) for i in case['panel']['ids']]
+      # the twins are control-only, so they never face each other (a perfectly correlated pair is refused)
+      case['elig_rows'] = {gid: ('cx' if k in (a, b) else 'ctx') for k, gid in enumerate(ids_)}
+    case['params']['n_designs'] = r.choice([2, 3, 5, 50])
+    for k in ('budget_range', 'treatment_share_range', 'n_geos_max'):
+      case['params'].pop(k, None)
   desc = sl.describe(case, with_frame=False)
   ops = gen_history(r)
   counters = collections.Counter()
@@ -145,6 +158,7 @@ def run_case(spec):
     return {'nontrivial': False, 'fp': util.fp(desc), 'classes': ['not-built'], 'counters': {'not_built': 1},
             'violations': [], 'sample': None, 'outcome': 'build:' + built.exc_type}
   data, par, mm = built.value
+  probes.reset()
   frame_fp = sl.frame_fingerprint(case['frame'])
   par0 = dataclasses.asdict(par)
   last_search_answer = None
@@ -237,9 +251,13 @@ def run_case(spec):
       else:
         last_search_answer = None
         seen_search = False
+  for a in probes.ALARMS[:3]:
+    # P-HEAP reads the container twice at every retrieval and compares the two reads item by item
+    violations.append({'clause': 'repeat-results', 'mech': 'heap-' + str(a.get('clause')),
+                       'detail': 'P-HEAP: %s; history %r' % (a.get('detail'), log)})
   if sl.frame_fingerprint(case['frame']) != frame_fp:
     violations.append({'clause': 'frame-mutated', 'mech': 'frame-mutated', 'detail': 'caller\'s input frame changed; history %r' % log})
-  return {'nontrivial': searched_then_more, 'fp': util.fp([desc, log]), 'classes': ['history'],
+  return {'nontrivial': searched_then_more, 'fp': util.fp([desc, log]), 'classes': ['history', 'ties' if ties else 'no-ties'],
           'counters': dict(counters), 'sets': {'bigrams': sorted(bigrams)}, 'violations': violations[:5],
           'sample': {'case': desc, 'history': log},
           'case': sl.describe(case) if violations else None}
